@@ -944,6 +944,16 @@ func (idx *Index) Flush() (types.Work, error) {
 	idx.bucketLk.Unlock()
 	vhook.At("index.flush.swapped")
 
+	// Write the primary before writing the record lists that were just taken.
+	// Every index entry refers to a primary record that was put before the
+	// entry was made, but a concurrent Put, or GC relocating a record, can do
+	// both after the caller last flushed the primary. The entry would then
+	// reach disk without the record it refers to, and a crash would leave a
+	// key that reads as absent although it had a flushed value.
+	if _, err := idx.Primary.Flush(); err != nil {
+		return 0, fmt.Errorf("cannot flush primary before index: %w", err)
+	}
+
 	blks := make([]bucketBlock, 0, len(idx.curPool))
 	var work types.Work
 	for bucket, data := range idx.curPool {
